@@ -275,7 +275,7 @@ def r3_3(repo: Repo) -> RuleResult:
 
 
 def r3_4(repo: Repo) -> RuleResult:
-    rr = RuleResult("R3.4", "window slices never start at a negative position (a negative lower bound wraps around)", floor=5)
+    rr = RuleResult("R3.4", "window slices never start at a negative position (a negative lower bound wraps around)", floor=3)
     scope = [repo.func(WK, "window_at_index")] + build_kernels(repo)
     em = repo.func("vectorizers/coo_utils.py", "em_update_matrix")
     for f in repo.all_funcs():
@@ -598,11 +598,49 @@ def r3_9(repo: Repo) -> RuleResult:
     return rr
 
 
-RULES = [r3_1, r3_2, r3_3, r3_4, r3_5, r3_6, r3_7, r3_8, r3_9]
+NGC = "vectorizers/ngram_token_cooccurence_vectorizer.py"
+
+
+def r3_10(repo: Repo) -> RuleResult:
+    """For an n-gram row item the 'after' window starts after the n-gram's *last* token and the 'before' window ends
+    before its *first* token.  The kernels express both through one anchor that depends on the reversal flag (0 / 1):
+    with the flag 0 it must be the index of the n-gram's last token (slice upper bound - 1), with the flag 1 the index
+    of its first token (slice lower bound) - whatever the loop variable stands for."""
+    rr = RuleResult("R3.10", "n-gram kernels anchor the 'after' window at the n-gram's last token and the 'before' window at its first", floor=2)
+    wai = repo.func(WK, "window_at_index")
+    for f in [g for g in repo.module(NGC).all_funcs if g.is_njit]:
+        grams = [c for c in repo.calls_in(f) if norm(c.func) == "array_to_tuple" and c.args and isinstance(c.args[0], ast.Subscript)
+                 and isinstance(c.args[0].slice, ast.Slice)]
+        wins = [c for c in repo.calls_in(f) if wai in repo.resolve_call(f, c)]
+        if not grams or not wins:
+            continue
+        sl = grams[0].args[0].slice
+        lo, hi = sym.poly(sl.lower) if sl.lower is not None else {}, sym.poly(sl.upper)
+        for c in wins:
+            b = repo.bind_args(wai, c)
+            anchor = b.get(wai.params[2])
+            flags = [x for x in ast.walk(anchor) if isinstance(x, ast.Subscript) and "revers" in norm(x.value)]
+            construct = "window_at_index(..., %s, ...)" % short(anchor, 50)
+            if not flags:
+                raise AnalysisError("R3.10: the window anchor `%s` of %s does not depend on a reversal flag" % (norm(anchor), f.key))
+            key = norm(flags[0])
+            a0 = sym.poly(sym.substitute(anchor, {key: ast.Constant(value=0)}))
+            a1 = sym.poly(sym.substitute(anchor, {key: ast.Constant(value=1)}))
+            last = sym.sub(hi, {(): 1})
+            if a0 == last and a1 == lo:
+                rr.ok(f, construct, "flag 0 -> %s (last token of the n-gram), flag 1 -> %s (its first token)" % (sym.show(a0), sym.show(a1)), c.lineno)
+            else:
+                rr.bad(f, construct, "with the reversal flag 0 the anchor is `%s` (last token of the n-gram is `%s`), with 1 it is `%s` (first token is `%s`): "
+                       "for n-grams longer than 2 the 'before' window is anchored inside the n-gram, counts the n-gram's own tokens as context and "
+                       "drops the farthest context token" % (sym.show(a0), sym.show(last), sym.show(a1), sym.show(lo)), c.lineno)
+    return rr
+
+
+RULES = [r3_1, r3_2, r3_3, r3_4, r3_5, r3_6, r3_7, r3_8, r3_9, r3_10]
 CLAIM = (
     "R3.1 precision flow: no absolute timestamp is narrowed to float32 before the time difference is formed; R3.2 the three tables "
     "(orientation -> reversal flags, orientation -> column prefixes, reversal flag -> before/after in window_at_index) agree; R3.3 "
     "positional kernel / window argument packing matches the parameter order of every function in each class's registry; R3.4 "
-    "window slices have non-negative lower bounds (clamp or range proof); R3.5 window_at_index takes exactly window_size neighbours adjacent to the index on the chosen side, nearest first; R3.6 the stored weight and the window total it is divided by both derive from the mix-weighted kernels (backward slices), with a zero-total guard; R3.7 kernel parameters fitted from the data (the mean time gap) are accumulated in an attribute that the same function re-initialises on every path; R3.8 every per-window configuration list (kernel and window functions, their arguments, radii) expands each orientation to as many entries as it has reversal flags (the dispatch is evaluated per orientation); R3.9 in the multiset kernels, which cut their windows themselves, a set reversal flag selects the slice ending at the position (reversed) and a clear flag the slice starting at it."
+    "window slices have non-negative lower bounds (clamp or range proof); R3.5 window_at_index takes exactly window_size neighbours adjacent to the index on the chosen side, nearest first; R3.6 the stored weight and the window total it is divided by both derive from the mix-weighted kernels (backward slices), with a zero-total guard; R3.7 kernel parameters fitted from the data (the mean time gap) are accumulated in an attribute that the same function re-initialises on every path; R3.8 every per-window configuration list (kernel and window functions, their arguments, radii) expands each orientation to as many entries as it has reversal flags (the dispatch is evaluated per orientation); R3.9 in the multiset kernels, which cut their windows themselves, a set reversal flag selects the slice ending at the position (reversed) and a clear flag the slice starting at it; R3.10 the n-gram kernels anchor the 'after' window at the n-gram's last token and the 'before' window at its first (the anchor expression is evaluated symbolically for reversal flag 0 and 1 against the bounds of the n-gram slice)."
 )
 NOT_DECIDED = "the numerical definition itself: kernel formulas, per-occurrence sums, window normalisation totals, the transpose identity."
